@@ -292,6 +292,16 @@ func runC09(c *Ctx) {
 						problems = append(problems, "creating the join failed: "+err.Error())
 						return
 					}
+					// in the second cycle a second join of the same kind lives on the same
+					// two base controllers: each is closed on its own
+					var j2 *tctl
+					if cycle == 1 {
+						j2, err = jd.mk(ctx, src, dst)
+						if err != nil {
+							problems = append(problems, "creating a second join over the same base controllers failed: "+err.Error())
+							return
+						}
+					}
 					if cycle%2 == 1 {
 						jcancel()
 					}
@@ -343,6 +353,11 @@ func runC09(c *Ctx) {
 							}
 						}
 						cases = append(cases, enc.L(enc.I(14), enc.I(jd.tag), EncObjs(srcs), EncObjs(dsts), enc.Ints(got)))
+						if j2 != nil {
+							if got2, err := j2.listIDs(); err != nil || !sameInts(got2, got) {
+								problems = append(problems, fmt.Sprintf("%s: two joins of one kind over the same base controllers differ: %v and %v (%v)", stage, got, got2, err))
+							}
+						}
 					}
 					verify(fmt.Sprintf("cycle %d after creation", cycle))
 					steps := 6 + c.Rng.Intn(8)
@@ -406,6 +421,28 @@ func runC09(c *Ctx) {
 					sched.Settle()
 					if !isClosed(j.done()) {
 						problems = append(problems, "the join result is not done after Close()")
+					}
+					if j2 != nil {
+						// the sibling join goes on
+						if isClosed(j2.done()) {
+							problems = append(problems, "closing one join stopped a second join over the same base controllers")
+						}
+						srcSrv.Put(proto(jd.srcKind, 2, 1, 1))
+						dstSrv.Put(proto(jd.dstKind, 2, 3, 1))
+						pert.Barrier()
+						got2, err := j2.listIDs()
+						want2 := joinExpected(jd.tag, srcSrv.Objects(), dstSrv.Objects(), true)
+						loose2 := joinExpected(jd.tag, srcSrv.Objects(), dstSrv.Objects(), false)
+						if err != nil || !(sameInts(got2, want2) || jd.tag == 13 && sameInts(got2, loose2)) {
+							problems = append(problems, fmt.Sprintf("after its sibling join was closed the second join holds %v (%v); the destination objects selected by a current source object are %v", got2, err, want2))
+						}
+						j2.closeFn()
+						pert.Barrier()
+						time.Sleep(time.Millisecond)
+						sched.Settle()
+						if !isClosed(j2.done()) {
+							problems = append(problems, "the second join is not done after Close()")
+						}
 					}
 					if !baseValid {
 						base = sched.LibraryGoroutines()
